@@ -2,7 +2,7 @@
 import scopedom
 
 OBS = 'ObsC07'
-LABELS = {'quick': 'until until_kids'.split(), 'thorough': 'until until_kids'.split()}
+LABELS = {'quick': 'until until_kids until_time'.split(), 'thorough': 'until until_kids until_time'.split()}
 
 
 def run(check):
